@@ -478,7 +478,9 @@ def tomtom(Qs, Ts, n_nearest=None, n_score_bins=100, n_median_bins=1000,
 		Ts = [T.numpy(force=True) for T in Ts]
 
 	Q_lens = numpy.array([Q.shape[-1] for Q in Qs], dtype='int64')
-	Q = numpy.concatenate(Qs, axis=-1)
+	# Always compare in double precision: otherwise a float32 query is processed
+	# in float32 when alone but in float64 when any other query is float64.
+	Q = numpy.concatenate(Qs, axis=-1).astype(numpy.float64)
 	Q_norm = (Q ** 2).sum(axis=0)
 	
 	if reverse_complement:        
